@@ -45,8 +45,9 @@ Definition r_ts (a : arith) (c : cfg) (k : Z) : Z := (r_sec a c k / fc c) * fc c
 
 (* Python range(lo, hi, step) / np.arange(lo, hi, step) for step > 0 *)
 Definition nsteps (lo hi step : Z) : nat := Z.to_nat (cdiv (hi - lo) step).
-Definition pyrange (lo hi step : Z) : list Z :=
-  map (fun i => lo + Z.of_nat i * step) (seq 0 (nsteps lo hi step)).
+Fixpoint zrange_from (x step : Z) (cnt : nat) : list Z :=
+  match cnt with O => [] | S cnt' => x :: zrange_from (x + step) step cnt' end.
+Definition pyrange (lo hi step : Z) : list Z := zrange_from lo step (nsteps lo hi step).
 
 (* candidate (subdirectory ts, file ts) pairs, in the order _get_file_list generates them,
    before the os.access existence test *)
